@@ -37,12 +37,21 @@ constexpr size_t kSlots = 3;
 constexpr size_t kMaxFields = 4;
 
 struct VCfg { std::string kind; long a = 0, b = 0; std::string msg; };
+struct Sub      // the nested object {x}
+{
+	int x = 77;
+	template <class TArchive> void Serialize(TArchive& archive) { archive << KeyValue("x", x); }
+};
+
 struct FieldCfg
 {
-	std::string key, type;          // type: int | str | optint
-	std::string docKind;            // int | str | absent | null
+	std::string key, type;          // type: int | str | optint | vecint | vecstr | mapint | obj
+	std::string docKind;            // int | str | ints | strs | imap | obj | absent | null
 	int docInt = 0;
 	std::string docStr;
+	std::vector<int> docInts;
+	std::vector<std::string> docStrs;
+	std::map<std::string, int> docMap;
 	VCfg v[kSlots];                 // kind "" = empty slot
 };
 struct Scenario
@@ -50,11 +59,16 @@ struct Scenario
 	std::string id, place;
 	size_t nel = 1;
 	uint32_t cap = 0;
+	bool throwOnMismatch = false;   // mismatchedTypesPolicy: ThrowError (the default) | Skip
 	std::vector<FieldCfg> fields;
 	std::vector<std::string> archs, media;
 };
 
 const Scenario* g_scn = nullptr;
+
+// CSV scopes hold flat records only: container / object members exist only for the structured archives
+template <class A, class = void> struct IsCsvScope : std::false_type {};
+template <class A> struct IsCsvScope<A, std::void_t<decltype(A::allowed_separators)>> : std::true_type {};
 
 [[noreturn]] void Die(const std::string& what) { fprintf(stderr, "val_harness: %s\n", what.c_str()); fflush(stderr); _exit(3); }
 
@@ -77,10 +91,13 @@ struct AnyValidator
 		{
 			if (k == "range") return Range<int>(static_cast<int>(cfg->a), static_cast<int>(cfg->b), msg)(value, isLoaded);
 		}
-		if constexpr (std::is_same_v<T, std::string>)
+		if constexpr (has_size_v<T>)
 		{
 			if (k == "minsize") return MinSize(static_cast<size_t>(cfg->a), msg)(value, isLoaded);
 			if (k == "maxsize") return MaxSize(static_cast<size_t>(cfg->a), msg)(value, isLoaded);
+		}
+		if constexpr (std::is_same_v<T, std::string>)
+		{
 			if (k == "email") return msg ? Email(msg)(value, isLoaded) : Email()(value, isLoaded);
 			if (k == "phone") return PhoneNumber(static_cast<size_t>(cfg->a), static_cast<size_t>(cfg->b), true, msg)(value, isLoaded);
 			if (k == "phonenp") return PhoneNumber(static_cast<size_t>(cfg->a), static_cast<size_t>(cfg->b), false, msg)(value, isLoaded);
@@ -99,10 +116,15 @@ struct AnyValidator
 			if (!isLoaded || value % 2 == 0) return std::nullopt;
 			return msg ? msg : "The value must be even";
 		}
-		else {
+		else if constexpr (std::is_same_v<T, std::optional<int>>) {
 			if (!isLoaded || !value.has_value() || *value % 2 == 0) return std::nullopt;
 			return msg ? msg : "The value must be even";
 		}
+		else if constexpr (std::is_same_v<T, Sub>) {
+			if (!isLoaded || value.x % 2 == 0) return std::nullopt;
+			return msg ? msg : "The value must be even";
+		}
+		else Die("the custom rule is not defined for this field type");
 	}
 };
 
@@ -114,6 +136,10 @@ struct VObj
 	int iv[kMaxFields];
 	std::string sv[kMaxFields];
 	std::optional<int> ov[kMaxFields];
+	std::vector<int> vi[kMaxFields];
+	std::vector<std::string> vs[kMaxFields];
+	std::map<std::string, int> mi[kMaxFields];
+	Sub so[kMaxFields];
 
 	VObj() { for (size_t k = 0; k < kMaxFields; ++k) { iv[k] = 77; sv[k] = "prior"; ov[k] = std::nullopt; } }
 
@@ -130,6 +156,15 @@ struct VObj
 				archive << KeyValue(std::string(f.key), sv[k], AnyValidator<std::string>{ &f.v[0] }, AnyValidator<std::string>{ &f.v[1] }, AnyValidator<std::string>{ &f.v[2] });
 			else if (f.type == "optint")
 				archive << KeyValue(std::string(f.key), ov[k], AnyValidator<std::optional<int>>{ &f.v[0] }, AnyValidator<std::optional<int>>{ &f.v[1] }, AnyValidator<std::optional<int>>{ &f.v[2] });
+			else if constexpr (IsCsvScope<TArchive>::value) Die("CSV cannot hold a field of type " + f.type);
+			else if (f.type == "vecint")
+				archive << KeyValue(std::string(f.key), vi[k], AnyValidator<std::vector<int>>{ &f.v[0] }, AnyValidator<std::vector<int>>{ &f.v[1] }, AnyValidator<std::vector<int>>{ &f.v[2] });
+			else if (f.type == "vecstr")
+				archive << KeyValue(std::string(f.key), vs[k], AnyValidator<std::vector<std::string>>{ &f.v[0] }, AnyValidator<std::vector<std::string>>{ &f.v[1] }, AnyValidator<std::vector<std::string>>{ &f.v[2] });
+			else if (f.type == "mapint")
+				archive << KeyValue(std::string(f.key), mi[k], AnyValidator<std::map<std::string, int>>{ &f.v[0] }, AnyValidator<std::map<std::string, int>>{ &f.v[1] }, AnyValidator<std::map<std::string, int>>{ &f.v[2] });
+			else if (f.type == "obj")
+				archive << KeyValue(std::string(f.key), so[k], AnyValidator<Sub>{ &f.v[0] }, AnyValidator<Sub>{ &f.v[1] }, AnyValidator<Sub>{ &f.v[2] });
 			else Die("unknown field type " + f.type);
 		}
 	}
@@ -142,7 +177,11 @@ struct VObj
 			if (!out.empty()) out += ',';
 			if (fs[k].type == "int") out += "[\"int\"," + std::to_string(iv[k]) + "]";
 			else if (fs[k].type == "str") out += "[\"str\",\"" + vh::JsonEscape(sv[k]) + "\"]";
-			else out += ov[k] ? "[\"some\"," + std::to_string(*ov[k]) + "]" : std::string("[\"none\"]");
+			else if (fs[k].type == "optint") out += ov[k] ? "[\"some\"," + std::to_string(*ov[k]) + "]" : std::string("[\"none\"]");
+			else if (fs[k].type == "vecint") { out += "[\"ints\",["; for (size_t i = 0; i < vi[k].size(); ++i) { if (i) out += ','; out += std::to_string(vi[k][i]); } out += "]]"; }
+			else if (fs[k].type == "vecstr") { out += "[\"strs\",["; for (size_t i = 0; i < vs[k].size(); ++i) { if (i) out += ','; out += "\"" + vh::JsonEscape(vs[k][i]) + "\""; } out += "]]"; }
+			else if (fs[k].type == "mapint") { out += "[\"imap\",["; bool first = true; for (const auto& kv : mi[k]) { if (!first) out += ','; first = false; out += "[\"" + vh::JsonEscape(kv.first) + "\"," + std::to_string(kv.second) + "]"; } out += "]]"; }
+			else out += "[\"obj\"," + std::to_string(so[k].x) + "]";
 		}
 	}
 };
@@ -157,7 +196,13 @@ struct WObj
 			if (f.docKind == "int") { int x = f.docInt; archive << KeyValue(std::string(f.key), x); }
 			else if (f.docKind == "str") { std::string s = f.docStr; archive << KeyValue(std::string(f.key), s); }
 			else if (f.docKind == "null") { std::nullptr_t n = nullptr; archive << KeyValue(std::string(f.key), n); }
-			else if (f.docKind != "absent") Die("unknown doc kind " + f.docKind);
+			else if (f.docKind == "absent") continue;
+			else if constexpr (IsCsvScope<TArchive>::value) Die("CSV cannot hold a value of kind " + f.docKind);
+			else if (f.docKind == "ints") { std::vector<int> v = f.docInts; archive << KeyValue(std::string(f.key), v); }
+			else if (f.docKind == "strs") { std::vector<std::string> v = f.docStrs; archive << KeyValue(std::string(f.key), v); }
+			else if (f.docKind == "imap") { std::map<std::string, int> m = f.docMap; archive << KeyValue(std::string(f.key), m); }
+			else if (f.docKind == "obj") { Sub o; o.x = f.docInt; archive << KeyValue(std::string(f.key), o); }
+			else Die("unknown doc kind " + f.docKind);
 		}
 	}
 };
@@ -182,7 +227,7 @@ std::string DescribeCurrentException(std::string& errs)
 		}
 		return "[\"validation\"]";
 	}
-	catch (const SerializationException& e) { return "[\"ser\",\"" + Convert::ToString(e.GetErrorCode()) + "\",\"" + vh::JsonEscape(e.what()) + "\"]"; }
+	catch (const SerializationException& e) { return "[\"ser\",\"" + Convert::ToString(e.GetErrorCode()) + "\"]"; }
 	catch (const std::bad_alloc&) { return "[\"std\",\"bad_alloc\"]"; }
 	catch (const std::exception& e) { return std::string("[\"std\",\"") + vh::JsonEscape(e.what()) + "\"]"; }
 	catch (...) { return "[\"nonstd\"]"; }
@@ -193,7 +238,7 @@ std::string RunScenario(const Scenario& s, const std::string& medium, bool withD
 {
 	constexpr bool isCsv = std::is_same_v<TArchive, Csv::CsvArchive>;
 	SerializationOptions options;
-	options.mismatchedTypesPolicy = MismatchedTypesPolicy::Skip;
+	options.mismatchedTypesPolicy = s.throwOnMismatch ? MismatchedTypesPolicy::ThrowError : MismatchedTypesPolicy::Skip;
 	options.maxValidationErrors = s.cap;
 
 	// 1. the document: saved by the same archive
@@ -253,6 +298,7 @@ Scenario ParseScenario(const std::string& line)
 	s.place = d["place"].GetString();
 	s.nel = d["nel"].GetUint();
 	s.cap = d["cap"].GetUint();
+	s.throwOnMismatch = d.HasMember("pol") && std::string(d["pol"].GetString()) == "throw";
 	for (const auto& a : d["archs"].GetArray()) s.archs.emplace_back(a.GetString());
 	if (d.HasMember("media")) for (const auto& m : d["media"].GetArray()) s.media.emplace_back(m.GetString());
 	if (s.media.empty()) s.media.emplace_back("mem");
@@ -263,8 +309,11 @@ Scenario ParseScenario(const std::string& line)
 		f.type = jf["t"].GetString();
 		const auto& doc = jf["doc"];
 		f.docKind = doc[0].GetString();
-		if (f.docKind == "int") f.docInt = doc[1].GetInt();
+		if (f.docKind == "int" || f.docKind == "obj") f.docInt = doc[1].GetInt();
 		else if (f.docKind == "str") f.docStr = doc[1].GetString();
+		else if (f.docKind == "ints") { for (const auto& x : doc[1].GetArray()) f.docInts.push_back(x.GetInt()); }
+		else if (f.docKind == "strs") { for (const auto& x : doc[1].GetArray()) f.docStrs.emplace_back(x.GetString()); }
+		else if (f.docKind == "imap") { for (const auto& x : doc[1].GetArray()) f.docMap.emplace(x[0].GetString(), x[1].GetInt()); }
 		const auto& vs = jf["vs"].GetArray();
 		if (vs.Size() > kSlots) Die("too many validators");
 		for (rapidjson::SizeType j = 0; j < vs.Size(); ++j)
